@@ -170,7 +170,7 @@ Example C08_example :
   fst r = [RNil; RReject; RErr ESock; RErr EShort; RNil] /\
   s_sock (snd r) = [[60; 97; 47; 62]; [2; 3]; [9; 9]; [7]]%N /\
   stream so 0 (s_sock (snd r)) = [60; 97; 47; 62; 2; 9; 7]%N /\
-  map snd (s_queue (snd r)) = [[60; 97; 47; 62]; [2; 3]; [7]]%N /\
+  map snd (q_items (s_queue (snd r))) = [[60; 97; 47; 62]; [2; 3]; [7]]%N /\
   s_log (snd r) = [log_prefix; [60; 97; 47; 62]; log_sep; log_prefix; log_prefix;
                    log_prefix; [7]; log_sep]%N.
 Proof. repeat split. Qed.
